@@ -646,6 +646,7 @@ static J plan_c17(uint64_t seed, const std::string &tier) {
       if (!r.ph.null) lastphrase = r.ph.b;
       if (op.has("obj")) keyed[(size_t)op.i("obj")] = 0;
     } else { op = gensalt_op(g, true, true, true); }
+    if (g.chance(1, 4)) op["errno0"] = g.range(1, 133);
     if (g.chance(1, 6)) op["newthread"] = 1;   // e.g. main sets the key, a worker encrypts: the static key is per process, not per thread
     ops.push(op);
   }
